@@ -24,11 +24,11 @@ int run_ledger_family(verif::Args const& args, verif::Report& rep)
 
     std::uint64_t ncases = 0;
     if (prop == "C01")
-        ncases = args.budget(600, 30000);
+        ncases = args.budget(600, 8000);
     else if (prop == "C02")
-        ncases = args.budget(800, 40000);
+        ncases = args.budget(800, 10000);
     else
-        ncases = args.budget(600, 30000);
+        ncases = args.budget(600, 8000);
 
     for (std::uint64_t c = 0; c < ncases; ++c)
     {
